@@ -41,7 +41,7 @@ fn main() {
         "entscan" => lit::run_entscan(tier, seed, &mut out),
         "wxscan" => lit::run_wxscan(tier, seed, &mut out),
         "wxscan_js" => lit::run_wxscan_js(tier, seed, &mut out),
-        "determinism" => determinism::run(tier, seed, &mut out),
+        "determinism" => determinism::run(tier, seed, args.get(4).and_then(|s| s.parse().ok()).unwrap_or(0), &mut out),
         "exprgen" => exprs::run_gen(tier, seed, &mut out),
         "exprval" => exprs::run_val(tier, seed, &mut out),
         "locs" => locs::run_locs(tier, seed, &mut out),
